@@ -899,6 +899,9 @@ BIG_MARKS = [1 << 10, 10 ** 3, 1 << 12, 10 ** 4, 1 << 15, 1 << 16, 10 ** 5, 1 <<
              1 << 20, 1 << 21, 1 << 22]
 
 
+BIG_LAND_MARGIN = 160     # a filler creates at most about 100 nodes
+
+
 def is_big(case):
     return case.get("kind") == "bigstore"
 
@@ -1014,11 +1017,48 @@ def run_bigstore(case):
     # 2. growth by throw-away managers; M1 and fresh managers post again on the way
     k = 0
     passed = [m for m in BIG_MARKS if m < len(pb.memory)]
+    early = [j for j in range(n_first) if not m1_posts[j][0]["decomp"] and m1_posts[j][1] == "A"]
+    landings = []
+
+    def land_exactly(size, tagname):
+        """conjunctions of m <= 7 fresh variables (x1 + .. + xm >= m: a chain of exactly m nodes) until the store holds
+        exactly `size` entries"""
+        from tools.rect.pseudobool import Expr
+        jj = 0
+        while len(pb.memory) < size and jj < 4 * BIG_LAND_MARGIN:
+            m = min(7, size - len(pb.memory))
+            e = Expr()
+            for ii in range(m):
+                e = e + Literal(f"{tagname}z{jj}_{ii}")
+            (e >= m).getrobdd()
+            account()
+            jj += 1
+        return len(pb.memory) == size
+
+    def superset_of(p, tagname):
+        """p plus one heavier positive literal over a fresh variable, bound raised by its coefficient: p is the cofactor
+        'literal true' (the diagram of p, built at the very beginning, hangs below the new root); implies p"""
+        c0 = max(t[2] for t in p["lt"]) + 1
+        return dict(p, lt=[[tagname, True, c0]] + [list(t) for t in p["lt"]], b=p["b"] + c0, decomp=False)
+
     while st["made"] < target and k < 100000:
         goal = st["made"] + chunk
+        # a mark T within reach of this chunk: the growth stops at EXACTLY T - d entries and the long-lived manager posts
+        # four inequalities in a row (nothing else in between), so the store passes T between two of ITS posts: a superset
+        # of one of its first inequalities (new root over nodes with the smallest ids), a fresh one, that first inequality
+        # again (no new node), a fresh one.  A second manager spans the chunk: it posts another early inequality before
+        # the growth and a fresh one after the landing
+        nxt = next((m for m in sorted(BIG_MARKS) if m - 2 > len(pb.memory) and m not in case.get("skip", [])), None)
+        land = span = None
+        if nxt is not None and nxt - len(pb.memory) <= chunk + BIG_LAND_MARGIN and len(landings) + 1 < len(early) // 2:
+            land = nxt - [1, 0, 2][len(landings) % 3]
+            span = SATManager()
+            pe = m1_posts[early[2 * len(landings) + 1]][0]
+            s, extra = post(span, pe)
+            span_posts = [(pe, s, extra)]
         tm = SATManager()
         i = 0
-        while st["made"] < goal and i < 4 * chunk:
+        while st["made"] < goal and i < 4 * chunk and (land is None or land - len(pb.memory) > BIG_LAND_MARGIN):
             q = big_filler(r, f"t{k}_{i}")
             try:
                 if i < 6:
@@ -1029,6 +1069,26 @@ def run_bigstore(case):
                 pass
             account()
             i += 1
+        if land is not None:
+            ok_land = land_exactly(land, f"l{k}")
+            pe = m1_posts[early[2 * len(landings)]][0]
+            seq = [superset_of(pe, f"s{k}"), big_small_ineq(r, f"m{len(m1_posts)}a"), dict(pe),
+                   big_small_ineq(r, f"m{len(m1_posts)}b")]
+            sizes = [len(pb.memory)]
+            first = len(m1_posts)
+            for p in seq:
+                s, extra = post(m1, p)
+                m1_posts.append((p, s, extra))
+                sizes.append(len(pb.memory))
+            check_m1(range(first, len(m1_posts)), f"landing {nxt}")
+            p = big_small_ineq(r, f"sp{k}")
+            s, extra = post(span, p)
+            span_posts.append((p, s, extra))
+            ok = bool(span.solve())
+            for j, (p, s, extra) in enumerate(span_posts):
+                checks.append({"mgr": "span", "post": j, "at": f"landing {nxt}", "memlen": len(pb.memory), "p": p,
+                               "status": s, "norm": extra, "solve": ok, "ext": big_table(span, p) if ok else None})
+            landings.append({"mark": nxt, "landed": ok_land, "sizes": sizes})
         p = big_small_ineq(r, f"m{len(m1_posts)}")
         s, extra = post(m1, p)
         m1_posts.append((p, s, extra))
@@ -1046,7 +1106,7 @@ def run_bigstore(case):
     obs = {"status": status, "checks": checks, "solve": ok, "memlen": len(pb.memory), "made": st["made"],
            "peak": st["peak"], "store_shrank": st["shrunk"], "chunks": k, "m1_posts": len(m1_posts),
            "m1_clauses": len(m1.clauses), "m1_codified": len(m1.codified), "refused_unchanged": [],
-           "mmap_ok": len(pb.mmap) == len(pb.memory) - 2}
+           "mmap_ok": len(pb.mmap) == len(pb.memory) - 2, "landings": landings}
     if ok:
         obs["m1_model_ok"] = [all(m1.value(Literal(PRE + t[0])) in (0, 1) for t in p["lt"]) and
                               holds(p, {t[0]: bool(m1.value(Literal(PRE + t[0]))) for t in p["lt"]})
@@ -1064,7 +1124,9 @@ def big_oracle(case, obs):
         return "refused: a >= inequality with positive coefficients was refused"
     for c in obs["checks"]:
         p = c["p"]
-        who = (f"the long-lived manager (its post #{c['post']})" if c["mgr"] == "M1" else "a fresh manager") + \
+        who = (f"the long-lived manager (its post #{c['post']})" if c["mgr"] == "M1" else
+               f"a manager that spans the growth past a mark (its post #{c['post']})" if c["mgr"] == "span" else
+               "a fresh manager") + \
               f" with {c['memlen']} nodes in the process-wide store ({c['at']})"
         if not c["solve"]:
             return f"solve: solve() reports unsatisfiable for {who} although every posted inequality is satisfiable " \
@@ -1097,7 +1159,7 @@ def big_to_coq(case, obs):
     exactly the observed set of extendable assignments (C07_post_exact / C07_post_span: the set does not depend on
     the store, nor on what the manager posted before over other variables)."""
     cs = [c for c in obs["checks"] if c["ext"] is not None and c["norm"] is not None]
-    marks = [c for c in cs if c["at"].startswith("past") or c["at"] == "end" and c["mgr"] == "fresh"]
+    marks = [c for c in cs if c["at"].startswith(("past", "landing")) or c["at"] == "end" and c["mgr"] == "fresh"]
     rest = [c for c in cs if c not in marks]
     step = max(1, len(rest) // max(1, BIG_MODEL_SAMPLE - len(marks)))
     parts = []
@@ -1334,7 +1396,13 @@ def run(ctx, out, replay=None):
                 "first fills ids 2..2*chunk, then throw-away managers grow the store chunk by chunk (1500-3000 nodes; "
                 "many small inequalities over fresh variables - the cheapest way, 60k nodes/s); after every chunk the "
                 "long-lived manager posts another non-clause inequality, past every power of two / of ten and every "
-                "16th chunk a fresh manager posts one; every posted inequality is checked by enumeration")
+                "16th chunk a fresh manager posts one; every posted inequality is checked by enumeration; "
+                "JUST BELOW every mark T (2^k, 10^k; two more cases with chunks of 300 nodes for 10^3, 2^10, 2^12) the "
+                "growth stops at EXACTLY T-1 / T / T-2 entries and the long-lived manager posts four inequalities in a "
+                "row, so the store passes T between two of its own posts: one of its first inequalities plus a heavier "
+                "literal (new root over the nodes with the smallest ids), a fresh one, that first inequality again (no "
+                "new node), a fresh one; a second manager spans the chunk (an early inequality before the growth, a "
+                "fresh one after the landing)")
     cases = []
     if replay and "case" in replay:
         cases.append(fr.unjson(replay["case"]))
@@ -1352,6 +1420,10 @@ def run(ctx, out, replay=None):
         [3000, 5000, 12000, 40000, 70000, 70000, 110000, 140000, 270000, 530000, 10 ** 6 + 8192, (1 << 20) + 8192,
          (1 << 21) + 8192]
     cases += [gen_big_case(brng, t) for t in bt]
+    # small chunks (first block of 600 nodes): exact landings just below 10^3, 2^10, 2^12 as well
+    # (10^3 and 2^10 are too close for both to be landed on in one run: every other case skips 10^3)
+    cases += [dict(gen_big_case(brng, t, chunk=300), skip=[1000] if i % 2 else [])
+              for i, t in enumerate([6000, 6000] if ctx.quick() else [6000, 6000, 12000, 12000])]
     stats = {"refused_posts": 0, "cases_building_nodes": 0, "cases_reusing_earlier_nodes": 0, "unsat_instances": 0,
              "max_initial_memory": 0, "max_new_nodes": 0, "nodes_codified": 0,
              "ineq_via_diagram": 0, "ineq_as_clause_or_tautology": 0}
@@ -1363,6 +1435,8 @@ def run(ctx, out, replay=None):
             stats["bigstore_max_nodes"] = max(stats.get("bigstore_max_nodes", 0), obs["peak"])
             stats["bigstore_checked_posts"] = stats.get("bigstore_checked_posts", 0) + len(obs["checks"])
             stats["bigstore_store_shrank"] = stats.get("bigstore_store_shrank", 0) + obs["store_shrank"]
+            stats["bigstore_landings"] = stats.get("bigstore_landings", []) + \
+                [[l["mark"], l["sizes"][0], l["sizes"][-1]] for l in obs.get("landings", []) if l["landed"]]
             return obs
         stats["refused_posts"] += obs["status"].count("R")
         stats["cases_building_nodes"] += 1 if obs["newmem"] else 0
